@@ -79,11 +79,16 @@ def run_property(prop, tier):
                     entry["detail"] = "unwinding bound too small: %s" % (r.failed_checks[:2],)
                 else:
                     # replay natively before reporting
-                    pb, pout = K.playback_for(overlay, o.target, timeout_s=timeout)
+                    pbs, pout = K.playback_for(overlay, o.target, timeout_s=timeout)
                     rep_dev = rep_rel = False
-                    if pb:
-                        rep_dev, out_dev = K.native_replay(overlay, o.target, pb, release=False)
-                        rep_rel, out_rel = K.native_replay(overlay, o.target, pb, release=True)
+                    pb = None
+                    for cand in pbs[:6]:
+                        pb = cand
+                        rep_dev, out_dev = K.native_replay(overlay, o.target, cand, release=False)
+                        if not rep_dev:
+                            rep_rel, out_rel = K.native_replay(overlay, o.target, cand, release=True)
+                        if rep_dev or rep_rel:
+                            break
                     checks = [d for d, _ in r.failed_checks if classify_failed_check(d) == "violation"]
                     entry["failed_checks"] = r.failed_checks[:8]
                     entry["replayed"] = {"dev": rep_dev, "release": rep_rel}
@@ -159,7 +164,17 @@ def run_property(prop, tier):
 
     nontrivial = sum(1 for e in results if e["status"] in ("ok", "known") and
                      (e.get("covers", [1, 1])[1] > 0 or e.get("covers_witnessed", 0) > 0))
+    states = sum(e.get("paths", 0) + e.get("cbmc_checks", 0) for e in results)
+    transitions = sum(e.get("queries", 0) + e.get("cbmc_checks", 0) + (e.get("covers", [0, 0])[1] if isinstance(e.get("covers"), list) else 0)
+                      for e in results)
+    replays = sum(1 for e in results if e.get("replayed") or e.get("cex"))
     coverage = {
+        "states": max(1, states),
+        "transitions": max(1, transitions),
+        "traces_validated_against_impl": replays,
+        "states_rule": "states = symbolic-execution paths explored by mirsym + program checks encoded by CBMC; transitions = "
+                       "SMT feasibility/deciding queries + CBMC checks and cover goals; traces_validated_against_impl = "
+                       "counter-examples replayed natively against the real build in this run",
         "obligations": len(results),
         "discharged": nok,
         "inconclusive": ninc,
